@@ -426,6 +426,8 @@ let small_scopes : scen list =
     { base with items = [ Target 1; Change ([ (1, 11) ], true); Change ([ (1, 21) ], false); ConnUp (11, 1) ] };
     (* two changes committed while the device is away, then the device arrives *)
     { base with items = [ Target 1; Change ([ (1, 11) ], false); Change ([ (1, 21) ], false); ConnUp (11, 1) ] };
+    (* a serializable change and two changes on a connected target *)
+    { base with items = [ Target 1; ConnUp (11, 1); Change ([ (1, 11) ], true); Change ([ (1, 21) ], false); Change ([ (1, 31) ], false) ] };
     (* change, rollback of it, change *)
     { base with items = [ Target 1; ConnUp (11, 1); Change ([ (1, 11) ], false); Rollback 1; Change ([ (1, 31) ], false) ] };
   ]
